@@ -347,7 +347,7 @@ class Facts:
                 for alt in (f[1], f[2]):
                     g = Facts(self.conds[:i] + self.conds[i + 1 :])
                     g.add(alt)
-                    if g.infeasible():
+                    if g.infeasible_strong():
                         continue
                     r = g._decide(c)
                     if r is None:
@@ -422,6 +422,16 @@ class Facts:
                 return True if is_zero else (False if non_zero else None)
             return True if non_zero else (False if is_zero else None)
         return None
+
+    def infeasible_strong(self) -> bool:
+        """infeasible(), also using the disequalities: some n != 0 with n == 0 entailed by the linear part."""
+        if self.infeasible():
+            return True
+        ge, ne = self._linear()
+        for n in ne:
+            if _fm_infeasible(ge + [-n - ONE]) and _fm_infeasible(ge + [n - ONE]):
+                return True
+        return False
 
     def entails(self, c: Tuple) -> bool:
         return self.decide(c) is True
